@@ -335,6 +335,31 @@ theorem not_not (th : Nat → Sev) (f : FExpr) (s : Sev) (t : Option Str) :
     evalF th (.not (.not f)) s t = evalF th f s t := by
   simp [evalF]
 
+theorem not_le_dec (a b : Nat) : (!decide (a ≤ b)) = decide (b < a) := by
+  by_cases h : a ≤ b
+  · simp [h, Nat.not_lt.mpr h]
+  · simp [h, Nat.not_le.mp h]
+
+/-- A window `T0 and not T1` (in either operand order) accepts exactly the severities from the first threshold up to,
+not including, the second.  The thresholds are independent runtime values; no specialisation of the combinators may
+assume they are ordered. -/
+theorem window_filter (th : Nat → Sev) (s : Sev) (t : Option Str) :
+    evalF th (.and (.thr 0) (.not (.thr 1))) s t = (decide (th 0 ≤ s) && decide (s < th 1)) ∧
+    evalF th (.and (.not (.thr 1)) (.thr 0)) s t = (decide (th 0 ≤ s) && decide (s < th 1)) := by
+  constructor
+  · simp only [evalF]; rw [not_le_dec]
+  · simp only [evalF]; rw [not_le_dec, Bool.and_comm]
+
+/-- … so an *inverted* window (second threshold not above the first) accepts nothing: by `statement_spec` no record of
+a statement behind it reaches the formatter or a sink, and none of its callables is called. -/
+theorem inverted_window_rejects_everything (th : Nat → Sev) (h : th 1 ≤ th 0) (s : Sev) (t : Option Str) :
+    evalF th (.and (.thr 0) (.not (.thr 1))) s t = false ∧ evalF th (.and (.not (.thr 1)) (.thr 0)) s t = false := by
+  rw [(window_filter th s t).1, (window_filter th s t).2]
+  by_cases h0 : th 0 ≤ s
+  · have : ¬ (s < th 1) := Nat.not_lt.mpr (Nat.le_trans h h0)
+    simp [h0, this]
+  · simp [h0]
+
 example : statement ⟨2, .and (.thr 0) (.not (.thr 1)), 2⟩ (fun n => if n = 0 then 2 else 5) 3 (some ['t'])
     [.text ['a'], .lazy 7 ['b']] (some 1) =
     [.lazyCall 7, .fmt 3 (some ['t']) ['a', 'b'], .sink 0 3 (some ['t']) ['a', 'b'], .sink 1 3 (some ['t']) ['a', 'b']] := by
